@@ -265,6 +265,30 @@ pub fn seam_safe(s: &str) -> bool {
     !t.iter().any(|c| mixed(c)) && del_safe(&t)
 }
 
+/// `ins_safe` of C14_Seam.v on a cluster list
+pub fn ins_safe(t: &[&str]) -> bool {
+    t.windows(2).all(|w| {
+        if all_ws(w[0]) || all_ws(w[1]) {
+            true
+        } else {
+            !is_prepend(w[0].chars().last().unwrap_or(' '))
+                && !ws_joinable(w[1].chars().next().unwrap_or(' '))
+        }
+    })
+}
+
+/// `corrupt_safe` of C14_Seam.v
+pub fn corrupt_safe(s: &str) -> bool {
+    let t: Vec<&str> = vh::split_clusters(s, true).collect();
+    seam_safe(s) && ins_safe(&t)
+}
+
+/// `corrupt_safe_cf`
+pub fn corrupt_safe_cf(s: &str) -> bool {
+    let t: Vec<&str> = vh::split_clusters(s, true).collect();
+    seam_safe_cf(s) && ins_safe(&t)
+}
+
 // ---------------------------------------------------------------- drawing seam-prone inputs
 
 fn scalar_or(c: u32) -> char {
